@@ -110,7 +110,7 @@ DSTUB = "decompress -> decompress_contract"
 D_ASSUME = ["core decompress obeys D1-D7 of DESIGN.md 5.0 (decided on the real core for the stored-block language by the generated E families; assumed beyond)",
             "contract stub produces at most 3 (vec harness: 8) bytes per core call"]
 INFL_FUNCS = ["inflate::stream::inflate", "inflate_loop", "push_dict_out", "InflateState::new_boxed"]
-add("wrap_inflate::w_inflate_first", ["C13", "C06", "C09"],
+add("wrap_inflate::w_inflate_first", ["C13"],
     "real inflate(), first call on a fresh state, any core behaviour allowed by D1-D7: counts <= offered; delivered bytes = next plaintext bytes; Full => Stream error, "
     "nothing changed; StreamEnd <=> core Done and everything delivered; progress with non-empty buffers; wrapper invariant dict_ofs < 32768, dict_ofs+dict_avail <= 32768",
     "3 formats x flush in {None,Sync,Finish,Full} x input 0..=2 bytes x output 0..=2 bytes (all symbolic)",
@@ -148,8 +148,9 @@ add("wrap_deflate::w_compress_to_vec", ["C01"],
 # ----------------------------------------------------------------- E tier, compressor level 0
 COMP_FUNCS = ["deflate::core::compress", "compress_inner", "compress_stored", "flush_block", "flush_output_buffer", "OutputBufferOxide::*",
               "CallbackBuf::flush_output", "zlib::header_from_flags", "update_adler32"]
-for (hn, tier, z, n) in [("e_comp0_raw_n2", "quick", False, 2), ("e_comp0_zlib_n1", "thorough", True, 1), ("e_comp0_raw_n0", "thorough", False, 0), ("e_comp0_zlib_n3", "thorough", True, 3)]:
-    add("e_comp::" + hn, ["C01", "C02", "C09", "C10", "C14", "C15", "C16"],
+for (hn, tier, z, n, props) in [("e_comp0_raw_n2", "quick", False, 2, ["C01", "C15", "C10"]), ("e_comp0_zlib_n1", "thorough", True, 1, ["C09", "C16"]),
+                                ("e_comp0_raw_n0", "thorough", False, 0, ["C01", "C10"]), ("e_comp0_zlib_n3", "thorough", True, 3, ["C15", "C16", "C09"])]:
+    add("e_comp::" + hn, props,
         "real compress() at level 0, one Finish call: Done, all input consumed, output = one valid stored stream (reference stored decoder) that decodes to the input, exactly one final block, "
         "only stored blocks; " + ("header valid with CINFO 7, trailer = big-endian Adler-32 of the input, adler32() = reference Adler-32; " if z else "") +
         "size = n+5(+6) <= mz_deflateBound(n); after Done every further call => BadParam (0,0)",
@@ -214,18 +215,20 @@ for hn in ["s_bad_param_start_l0", "s_bad_param_start_l3", "s_bad_param_block_he
 
 for (hn, tier, desc) in [("w_inflate_c_none_2_2", "thorough", "flush None, 2 input bytes, 2 output bytes"), ("w_inflate_c_finish_2_1", "thorough", "first-call Finish, 2 input bytes, 1 output byte"),
                          ("w_inflate_c_sync_0_2", "thorough", "flush Sync, empty input, 2 output bytes")]:
-    add("wrap_inflate::" + hn, ["C13", "C09"] if "full" not in hn else ["C13"],
+    add("wrap_inflate::" + hn, ["C13"],
         "real inflate(), first call, any core behaviour within D1-D7 (" + desc + "): counts <= offered; delivered bytes = next plaintext bytes; StreamEnd <=> core done and all delivered; "
         "progress; Full => Stream error with nothing changed; format -> decoder flags (zlib parsed iff zlib formats, checksum ignored iff not Zlib, HAS_MORE_INPUT iff not Finish)",
         "3 data formats (symbolic), sizes/flush fixed as named, core produces <= 2 bytes", kind="W", tier=tier, timeout=1800, mem_gb=30, heavy=True,
         functions=INFL_FUNCS, stubs=[DSTUB], assumes=D_ASSUME, stubs_change_behaviour=True)
-for (hn, tier, desc) in [("e_comp0_sync_raw_1_1", "thorough", "raw, 1 byte + Sync, then 1 byte + Finish"), ("e_comp0_full_zlib_1_1", "thorough", "zlib, 1 byte + Full, then 1 byte + Finish"),
-                         ("e_comp0_sync_zlib_0_1", "thorough", "zlib, Sync before any input, then 1 byte + Finish"), ("e_comp0_none_then_finish_raw_2_0", "thorough", "raw, 2 bytes with no flush, then Finish")]:
-    add("e_comp::" + hn, ["C12", "C02", "C09", "C14"],
+for (hn, props, huge, desc) in [("e_comp0_sync_raw_1_1", ["C12", "C02"], False, "raw, 1 byte + Sync, then 1 byte + Finish"),
+                                ("e_comp0_full_zlib_1_1", ["C12"], True, "zlib, 1 byte + Full, then 1 byte + Finish"),
+                                ("e_comp0_sync_zlib_0_1", ["C09"], True, "zlib, Sync before any input, then 1 byte + Finish"),
+                                ("e_comp0_none_then_finish_raw_2_0", ["C02", "C14"], False, "raw, 2 bytes with no flush, then Finish")]:
+    add("e_comp::" + hn, props,
         "real compress() at level 0, two calls (" + desc + "): after the flush call (all input consumed, space to spare) the bytes so far decode with an independent stored decoder to "
         "all input so far; Sync/Full end with 00 00 FF FF on a byte boundary, unwritten_bit_count() = 0; running Adler = Adler-32 of consumed input; the second call completes ONE stream "
         "(header once, exactly one final block) that decodes to the whole input; counts within offered buffers",
-        "symbolic input bytes, 40-byte output buffer, nothing stubbed", kind="E", tier=tier, timeout=2400, mem_gb=30, heavy=True, functions=COMP_FUNCS)
+        "symbolic input bytes, 40-byte output buffer, nothing stubbed", kind="E", tier="thorough", timeout=2400, mem_gb=30, heavy=True, huge=huge, functions=COMP_FUNCS)
 
 MARKERS = ["compress_fast -> dcore :: verif :: mark_compress_fast", "compress_normal -> dcore :: verif :: mark_compress_normal",
            "compress_stored -> dcore :: verif :: mark_compress_stored", "flush_block -> dcore :: verif :: mark_flush_block"]
@@ -298,6 +301,9 @@ add("wrap_deflate::w_compressor_reset", ["C18"],
 EXPERIMENTAL = {
     "wrap_inflate::w_vec_limit", "wrap_deflate::w_compress_to_vec", "misc::w_inflate_reset_policies", "misc::w_inflate_state_clone",
     "wrap_inflate::w_inflate_c2_finish_finish", "wrap_inflate::w_inflate_c2_none_none", "wrap_inflate::w_inflate_c2_none_finish",
+    "steps::s_bad_param_block_header_l5", "wrap_inflate::w_inflate_format_flags", "wrap_inflate::w_inflate_c_sync_0_2",
+    "e_comp::e_comp0_full_zlib_1_1",   # Full flush runs the real 32 K-element fill loops: unwinding failure after 1640 s
+    "e_comp::e_comp0_sync_zlib_0_1",   # resource failure after 940 s even when run alone
 }
 
 
@@ -306,6 +312,8 @@ def all_harnesses():
     for h in H:
         if h["name"] in EXPERIMENTAL:
             h["tier"] = "experimental"
+        if h["name"].startswith("wrap_inflate::w_inflate_") and h["name"] != "wrap_inflate::w_inflate_step_full":
+            h["huge"] = True
     out = list(H)
     if os.path.exists(gen):
         out += json.load(open(gen))
